@@ -22,7 +22,8 @@ type RListen struct {
 	Backends         []string // udp://ip:port | tcp://ip:port
 	NoReceived       string   // "" absent | "true" | "false"
 	MustRR           bool
-	BackendLocalPort int // backend-local-port (0 = omitted)
+	BackendLocalPort int    // backend-local-port (0 = omitted)
+	BackendLocalAddr string // backend-local-address ("" = omitted)
 }
 
 type RRoute struct {
@@ -75,6 +76,9 @@ func (c RCfg) proxyYAML(b *strings.Builder) {
 		}
 		if l.BackendLocalPort != 0 {
 			fmt.Fprintf(b, "    backend-local-port: %d\n", l.BackendLocalPort)
+		}
+		if l.BackendLocalAddr != "" {
+			fmt.Fprintf(b, "    backend-local-address: %s\n", l.BackendLocalAddr)
 		}
 		if l.MustRR {
 			b.WriteString("    must-record-route: true\n")
